@@ -17,7 +17,8 @@ def compile_vf(spec, vectorize=False, backend='default', style=None, step_size=1
         template, _ = build.build_python(spec, style=style)
     kw.setdefault('float_precision', 'float64')
     kw.setdefault('in_place', False)
-    kw.setdefault('clear', False)
+    import os as _os
+    kw.setdefault('clear', _os.environ.get('VERIF_KEEP') != '1')   # public reset after each compile: checks other than C13 must not depend on leaks
     func, args, names, smap = template.get_run_func('vf', step_size=step_size, backend=backend, vectorize=vectorize,
                                                     verbose=False, **kw)
     return {'func': func, 'args': list(args), 'names': list(names), 'smap': dict(smap), 'template': template}
